@@ -455,6 +455,12 @@ func runC01(e *env) {
 	for i, t := range g.operatorMatrix() {
 		add("operator-matrix", t, printCtxs[i%len(printCtxs)], d0, 0)
 	}
+	// 1b. the pairwise table: every operator x every ordered pair of operand KINDS, operands as atoms and as composites
+	for rep := 0; rep < e.scale; rep++ {
+		for i, t := range g.pairwiseTable() {
+			add("pairwise", t, printCtxs[i%len(printCtxs)], d0, 0)
+		}
+	}
 	// 2. functions x argument kinds
 	for i, t := range g.functionMatrix() {
 		add("function-matrix", t, printCtxs[i%3], d0, 0)
@@ -496,6 +502,77 @@ func runC01(e *env) {
 		add("deep", g.gen(k, 2+e.rng.Intn(4)), c, xGenData(e.rng), []int{0, 0, 15, 50}[e.rng.Intn(4)])
 	}
 	c01Run(e, cases)
+	c01Coverage(e, cases)
+	c01FloatStrings(e)
+	c01SkipNotes(e)
+}
+
+// c01Coverage asks the Spec for the kinds of the operands of every operator node of every generated tree and
+// prints the operator x operand-kind matrix: once for the systematic groups, once for the random trees.
+func c01Coverage(e *env, cases []*xcase) {
+	reqs := make([]string, 0, len(cases))
+	for _, c := range cases {
+		reqs = append(reqs, strings.Replace(c.specReq(c.treeS, newIDTable()), "spec_eval", "spec_kinds", 1))
+	}
+	resp := e.m.Batch(reqs)
+	sys, rnd, all := newCover(), newCover(), newCover()
+	for i, c := range cases {
+		r := resp[i]
+		if len(r) > 0 && strings.HasPrefix(r[0], "!") {
+			c01Fail(e, hx.Violation{Kind: "mismatch", What: "model runner failed on spec_kinds", Case: c.report(e), Observed: r[0]}, "")
+			continue
+		}
+		all.add(r)
+		switch c.group {
+		case "operator-matrix", "pairwise":
+			sys.add(r)
+		case "deep", "position":
+			rnd.add(r)
+		}
+	}
+	sys.notes(e, "SYSTEMATIC groups (operator-matrix, pairwise)")
+	rnd.notes(e, "RANDOM trees (groups deep, position)")
+	reached, total, missing := all.binCells()
+	e.res.Histogram["operator-x-kind-pair cells reached (14 binary operators x 8 x 8 value kinds)"] = reached
+	e.res.Histogram["operator-x-kind-pair cells in the table"] = total
+	rr, _, _ := rnd.binCells()
+	e.res.Histogram["operator-x-kind-pair cells reached by the random trees alone"] = rr
+	if len(missing) > 0 {
+		// the table is built so that every cell is reached; a hole means the generator changed
+		e.res.Note("operator x kind cells NOT reached: %s", strings.Join(missing, " "))
+		c01Fail(e, hx.Violation{Kind: "mismatch", What: "the pairwise table no longer reaches every operator x operand-kind cell", Observed: strings.Join(missing, " ")}, "")
+	}
+	var fns []string
+	for k := range all.fnArg {
+		fns = append(fns, k)
+	}
+	e.res.Histogram["function x argument-kind combinations reached"] = len(fns)
+}
+
+// c01SkipNotes: how many generated cases the oracle had to skip, and why.
+func c01SkipNotes(e *env) {
+	h := e.res.Histogram
+	cases := h["expect:error"] + h["expect:output"]
+	skipped, numeric, printing := 0, 0, 0
+	for k, v := range h {
+		if strings.HasPrefix(k, "outside-domain:") {
+			skipped += v
+			cases += v
+			if strings.Contains(k, "inexact-float") {
+				numeric += v
+			}
+			if strings.Contains(k, "float-outside-printing-domain") {
+				printing += v
+			}
+		}
+	}
+	if cases == 0 {
+		return
+	}
+	pct := func(n int) string { return strconv.FormatFloat(100*float64(n)/float64(cases), 'f', 2, 64) + "%" }
+	e.res.Note("skipped by the oracle: %d of %d expression cases (%s); of these outside the numeric model (inexact float result, int64 overflow, randomInt, round with digits): %d (%s), "+
+		"float outside the printing domain: %d (%s). BEFORE Num.fl_to_string covered every finite float64 (commit e7d64ae, same tier, seed and generator; printing modelled only for |x| < 10^6 with at most 9 fraction bits): "+
+		"291 of 15713 skipped (1.85%%), numeric model 246 (1.57%%), printing domain 10 (0.06%%).", skipped, cases, pct(skipped), numeric, pct(numeric), printing, pct(printing))
 }
 
 func globalsSexp(g data.Map) string { return valueSexp(g, newIDTable()) }
